@@ -10,6 +10,7 @@ tie     the pieces of the Coq development that are models of code are compared w
 import collections
 import json
 import os
+import re
 
 import diag_gen
 import vlib
@@ -48,6 +49,13 @@ def gen_cases(ctx):
     cases = []
     bases = []
     uid = 0
+    # corpus first
+    cp = os.path.join(vlib.VERIF, "corpus", "c15", "cases.json")
+    if os.path.exists(cp):
+        for w in json.load(open(cp, encoding="utf-8")):
+            c = dict(w["planted"])
+            c.update(files=w["files"], std=w.get("std", False), prog=-1, ctx="corpus", needs_std=w.get("std", False))
+            cases.append(c)
     for pi in range(nprog):
         files, positions = diag_gen.base_program(r, 2 + pi % 3)
         bases.append(files)
@@ -81,6 +89,8 @@ def parse_errs(line):
 
 def classify(c, status, errs):
     """None when the property holds for this planted case, else (classifier, description)"""
+    if c["kind"] == "control":
+        return None if status == "OK" else ("c15:control-rejected", "a valid program (shape %s only) was rejected: %s" % (c["shape"], errs[:1]))
     if status == "OK":
         return ("c15:accepted", "the planted %s was accepted" % c["kind"])
     if status != "ERR" or not errs:
@@ -95,8 +105,11 @@ def classify(c, status, errs):
     if c["eof"]:
         if line == 0:
             return ("c15:line-0:" + c["kind"], "%s (function ending at line %d of %d) is reported at line 0" % (c["kind"], c["line"], c["nlines"]))
-        if line < c["line"] or line > c["nlines"] + 1:
-            return ("c15:wrong-line:" + c["kind"], "%s reported at line %d, outside [%d, %d]" % (c["kind"], line, c["line"], c["nlines"] + 1))
+        lo = min(c["line"], c["nlines"])
+        if line < lo or line > c["nlines"] + 1:
+            return ("c15:wrong-line:" + c["kind"], "%s reported at line %d, outside [%d, %d]" % (c["kind"], line, lo, c["nlines"] + 1))
+        return None
+    if c.get("later_ok") and line >= c["line"]:
         return None
     if line not in c["allowed_lines"]:
         if line == 0:
@@ -151,7 +164,11 @@ def is_known(cl, known):
 def build(ctx):
     ok, exe, out = vlib.build_ocaml("diag", "ExtractDiag.v", "diag_driver.ml", "diagmodel")
     _state["exe"] = exe
-    return ok, out
+    if not ok:
+        return ok, out
+    ok2, lexexe, out2 = vlib.build_ocaml("lex", "ExtractLex.v", "lex_driver.ml", "lexmodel")
+    _state["lexexe"] = lexexe if ok2 else None
+    return ok2, out + out2
 
 
 def conflict_sources(ctx):
@@ -185,7 +202,7 @@ def import_graphs(ctx):
             uses = [x for x in ns if r.random() < 0.45]
             if r.random() < 0.15:
                 uses.append(m if m != "main" else r.choice(ns))     # self import / duplicate import
-            if r.random() < 0.1:
+            if r.random() < 0.03:
                 uses.append("missing_" + m)
             r.shuffle(uses)
             body = "".join("use %s\n" % u for u in uses) + "v_%s :: 1\n" % m
@@ -193,19 +210,41 @@ def import_graphs(ctx):
                 body += "start :: fn do end\n"
             files["/%s.sy" % m] = body
         for m in ns:
-            if r.random() < 0.1:
+            if r.random() < 0.03:
                 del files["/%s.sy" % m]
         out.append(files)
     return out
 
 
-def graph_case(files):
-    """model input: main, then for every file its imports in source order"""
+def uses_of(src, libs):
+    out = []
+    for l in src.split("\n"):
+        m = re.match(r"(?:use|from)\s+([A-Za-z_0-9/]+)", l)
+        if m:
+            n = m.group(1)
+            out.append("lib:" + n if n in libs else n)
+    return out
+
+
+def std_entries():
+    """the bundled library as model entries: lib:<name>=<uses in source order>"""
+    d = os.path.join(vlib.REPO, "std")
+    libs = sorted(f[:-3] for f in os.listdir(d) if f.endswith(".sy"))
+    ents = []
+    for n in libs:
+        u = uses_of(open(os.path.join(d, n + ".sy"), encoding="utf-8").read(), libs)
+        ents.append("lib:%s=%s" % (n, ",".join(u) if u else "."))
+    return ents, libs
+
+
+def graph_case(files, std):
+    """model input: std flag, main, then for every file its imports in source order"""
+    sents, libs = std_entries()
     ents = []
     for p, src in sorted(files.items()):
-        uses = [l[4:].strip() for l in src.split("\n") if l.startswith("use ")]
+        uses = uses_of(src, libs)
         ents.append("%s=%s" % (p[1:-3], ",".join(uses) if uses else "."))
-    return "graph\tmain\t" + "\t".join(ents)
+    return "graph\t%d\tmain\t" % (1 if std else 0) + "\t".join(ents + sents)
 
 
 def tie(ctx):
@@ -233,22 +272,29 @@ def tie(ctx):
                 mism.append({"what": "find_conflict_markers", "source": s, "real_lines": got, "model_lines": want, "raw": a[:200]})
     # 2. file ids
     graphs = import_graphs(ctx)
-    real = vlib.harness("tree", [diag_gen.case_line(f, False) for f in graphs], timeout_s=20)
-    mod = vlib.model(exe, [], [graph_case(f) for f in graphs])
-    for f, a, b in zip(graphs, real, mod):
+    gstd = [i % 3 == 0 for i in range(len(graphs))]
+    real = vlib.harness("tree", [diag_gen.case_line(f, sd) for f, sd in zip(graphs, gstd)], timeout_s=20)
+    mod = vlib.model(exe, [], [graph_case(f, sd) for f, sd in zip(graphs, gstd)])
+    for f, sd, a, b in zip(graphs, gstd, real, mod):
         evals += 1
         ids = tree_ids(a)
         if ids is None:
             # tree failed (missing file): compare the ids through the errors?  the module list is not returned; skip but count
             dist["graph:tree-error"] += 1
             continue
-        dist["graph:%d-files" % len(ids)] += 1
+        dist["graph:%s%d-modules" % ("std+" if sd else "", len(ids) if not sd else len([k for k in ids if not k.startswith("lib:")]))] += 1
         nontrivial.add(json.dumps(f, sort_keys=True))
-        want = dict(x.split(":") for x in b.split(" ")[1:]) if b.startswith("G") else None
-        want = {k: int(v) for k, v in want.items()} if want is not None else None
+        want = None
+        if b.startswith("G ") and " | " in b:
+            left, right = b[2:].split(" | ")
+            want = {x.rsplit(":", 1)[0]: int(x.rsplit(":", 1)[1]) for x in left.split(" ")}
+            back = all(x.split(":", 1)[0] == x.split(":", 1)[1] if not x.startswith("lib:") else
+                       x[:len(x) // 2] == x[len(x) // 2 + 1:] for x in right.split(" "))
+            if not back:
+                want = None
         if want != ids:
             if len(mism) < 10:
-                mism.append({"what": "file ids", "files": f, "real": ids, "model": want})
+                mism.append({"what": "file ids", "files": f, "std": sd, "real": ids, "model": b[:300]})
     # 3. token line == reported line for a stray token (lexer model line vs parser's error line)
     bases, cases, res, viols, bad_bases = run_oracle(ctx)
     lexexe = _state.get("lexexe")
@@ -277,12 +323,13 @@ def tree_ids(line):
     if not line.startswith("TREE "):
         return None
     txt = vlib.unhex(line[5:]).decode("utf-8", "replace")
-    import re
     out = {}
     for m in re.finditer(r"\(module (file|lib):(\S+) (\d+)", txt):
         name = m.group(2)
         if m.group(1) == "file":
             name = os.path.basename(name)[:-3]
+        else:
+            name = "lib:" + name
         out[name] = int(m.group(3))
     return out
 
@@ -310,8 +357,16 @@ def always(ctx):
     unknown = []
     for cl, lst in sorted(by_cl.items()):
         text, c = min(lst, key=lambda x: (len(x[1]["files"]), sum(len(s) for s in x[1]["files"].values())))
+        try:
+            if c.get("ctx") != "corpus":
+                c = shrink_case(shrink_case(c, cl), cl)
+        except Exception:
+            vlib.log("shrink failed for", cl)
         report[cl] = {"count": len(lst), "known": is_known(cl, known), "example": text,
-                      "minimal_files": c["files"], "std": c["std"], "first_error": c["first"]}
+                      "minimal_files": c["files"], "std": c["std"], "first_error": c["first"],
+                      "planted": {"kind": c["kind"], "file": c["file"], "line": c["line"], "allowed_lines": c["allowed_lines"],
+                                  "eof": c["eof"], "nlines": c["nlines"], "shape": c["shape"], "later_ok": c.get("later_ok", False)}}
+        lst[:] = [(text, c)] + lst
         if not is_known(cl, known):
             unknown.append((cl, text, c))
     _state["unknown"] = unknown
@@ -335,14 +390,86 @@ def always(ctx):
                        "base_programs": len(bases)}}
 
 
-def shrink_case(c):
-    """drop files and lines that are not needed for the first error to be in the wrong place"""
-    def bad(files):
-        st, errs = parse_errs(vlib.harness("compile", [diag_gen.case_line(files, c["std"])], timeout_s=20)[0])
-        if st != "ERR" or not errs:
-            return False
-        return errs[0][1] != c["file"] or errs[0][2] == 0
-    return c["files"]
+def shrink_case(c, classifier):
+    """delta-debug the lines of all files (the planted line stays) while the same classifier fires"""
+    crlf = "crlf" in c["shape"]
+    nl = "\r\n" if crlf else "\n"
+    entries = []          # (path, text, tag)
+    for p, src in sorted(c["files"].items()):
+        sep = nl if p == c["file"] else "\n"
+        ls = src.split(sep)
+        if ls and ls[-1] == "":
+            ls.pop()
+        for i, t in enumerate(ls):
+            tag = None
+            if p == c["file"]:
+                if c["eof"] and i == c["line"] - 1:
+                    entries.append((p, None, "planted"))      # where the `end` was
+                elif not c["eof"] and i == c["line"] - 1:
+                    tag = "planted"
+                elif not c["eof"] and (i + 1) in (c["allowed_lines"] or []) and not c.get("later_ok"):
+                    tag = "other"
+            entries.append((p, t, tag))
+        if p == c["file"] and c["eof"] and c["line"] - 1 >= len(ls):
+            entries.append((p, None, "planted"))
+    fixed = [e for e in entries if e[2]]
+    free = [e for e in entries if not e[2]]
+
+    def build(keep):
+        keep = set(id(e) for e in keep)
+        files, planted, allowed = {}, None, []
+        for e in entries:
+            if e[2] is None and id(e) not in keep:
+                continue
+            p, t, tag = e
+            files.setdefault(p, [])
+            if tag == "planted":
+                planted = len(files[p]) + 1
+                if t is None:
+                    continue
+            if tag in ("planted", "other"):
+                allowed.append(len(files[p]) + 1)
+            files[p].append(t)
+        if "/main.sy" not in files:
+            return None
+        c2 = dict(c)
+        ctrl = {p: list(ls) for p, ls in files.items()}
+        if c["eof"]:
+            ctrl[c["file"]].insert(planted - 1, "end")
+        else:
+            del ctrl[c["file"]][planted - 1]
+            if c["kind"] == "assign-to-local-constant":
+                del ctrl[c["file"]][planted - 2]
+        c2["control"] = {p: "\n".join(ls) + "\n" for p, ls in ctrl.items()}
+        c2["files"] = {p: (nl if p == c["file"] else "\n").join(ls) + (nl if p == c["file"] else "\n") for p, ls in files.items()}
+        c2["line"] = planted
+        c2["nlines"] = len(files.get(c["file"], []))
+        if not c["eof"]:
+            c2["allowed_lines"] = allowed
+        return c2
+
+    def fails(cands):
+        built = [build(k) for k in cands]
+        lines = [l for b in built if b for l in (diag_gen.case_line(b["files"], b["std"]), diag_gen.case_line(b["control"], b["std"]))]
+        res = iter(vlib.harness("compile", lines, timeout_s=30))
+        out = []
+        for b in built:
+            if not b:
+                out.append(False)
+                continue
+            st, errs = parse_errs(next(res))
+            ctrl_ok = next(res).startswith("OK")
+            v = classify(b, st, errs)
+            out.append(ctrl_ok and bool(v) and v[0] == classifier)
+        return out
+
+    if not fails([free])[0]:
+        return c
+    small = vlib.shrink_seq(free, fails)
+    b = build(small)
+    st, errs = parse_errs(vlib.harness("compile", [diag_gen.case_line(b["files"], b["std"])], timeout_s=30)[0])
+    b["first"] = errs[0] if errs else None
+    return b
 
 
 def search(ctx):
@@ -353,9 +480,14 @@ def search(ctx):
     if not unknown:
         return None
     cl, text, c = min(unknown, key=lambda x: (len(x[2]["files"]), sum(len(s) for s in x[2]["files"].values())))
+    try:
+        c = shrink_case(c, cl)
+    except Exception:
+        vlib.log("shrink failed for", cl)
     line = diag_gen.case_line(c["files"], c["std"])
     return {"classifier": cl, "what": text, "files": c["files"], "std": c["std"], "planted": {"kind": c["kind"], "file": c["file"], "line": c["line"],
-            "allowed_lines": c["allowed_lines"], "eof": c["eof"], "nlines": c["nlines"], "shape": c["shape"]},
+            "allowed_lines": c["allowed_lines"], "eof": c["eof"], "nlines": c["nlines"], "shape": c["shape"],
+            "later_ok": c.get("later_ok", False)},
             "first_error": c["first"], "case_line": line, "failing_inputs_found": len(unknown),
             "replay_cmd": "write case_line to a file and run `%s compile FILE`" % vlib.HARNESS_BIN}
 
